@@ -5,6 +5,7 @@ package c16
 import (
 	"fmt"
 	"go.uber.org/zap"
+	"net/url"
 	"runtime"
 	"strings"
 	"sync"
@@ -347,6 +348,50 @@ func startNoise(r *ev.Run) func() {
 	}
 }
 
+// a console logger assembled by zap.Config (round 8): the encoder configuration is the user's, whatever
+// DisableCaller / DisableStacktrace say about what the *logger* annotates - an option given to Build or
+// WithOptions can switch the annotation back on, and a core can be handed entries that carry them
+var (
+	cfgSinkOnce sync.Once
+	cfgSink     = &rec.Sink{}
+)
+
+type memSink struct{ *rec.Sink }
+
+func (memSink) Close() error { return nil }
+
+func encodeViaConfig(c *gen.Case, variant int) ([]byte, string, bool) {
+	cfgSinkOnce.Do(func() {
+		_ = zap.RegisterSink("verifc16", func(*url.URL) (zap.Sink, error) { return memSink{cfgSink}, nil })
+	})
+	zc := zap.Config{
+		Level:             zap.NewAtomicLevelAt(zapcore.DebugLevel),
+		Encoding:          "console",
+		EncoderConfig:     c.Cfg.Zap(),
+		OutputPaths:       []string{"verifc16://mem"},
+		DisableCaller:     variant&1 == 1,
+		DisableStacktrace: variant&2 == 2,
+		Development:       variant&4 == 4,
+	}
+	lg, err := zc.Build(zap.WithCaller(true), zap.AddStacktrace(zapcore.DebugLevel))
+	if err != nil {
+		return nil, "", false // e.g. a time key without a time encoder: Config refuses that
+	}
+	core := lg.Core()
+	for _, w := range c.Ctx {
+		core = core.With(gen.ZapFields(w))
+	}
+	cfgSink.Reset()
+	if err := core.Write(c.Ent, gen.ZapFields(c.Fields)); err != nil {
+		return nil, "core.Write: " + err.Error(), true
+	}
+	ws := cfgSink.Writes()
+	if len(ws) != 1 {
+		return nil, fmt.Sprintf("%d sink writes for one entry", len(ws)), true
+	}
+	return ws[0], "", true
+}
+
 func Run(r *ev.Run) {
 	r.Rule = "for each of the 128 presence patterns (six metadata keys + context present/absent) x N seeded cases: console EncoderConfig (built-in, nil and no-op sub-encoders, separators incl. multi-byte and '{', line endings) x entry x With-chain x fields; the line must be exactly the present columns (learned by running the configured sub-encoder against a recorder) joined by the separator, then separator + one valid JSON object equal to the JSON encoder's fields for the same chain, then the stack, then the line ending; distinct = distinct (pattern, config, shape)"
 	per := r.N(400, 20000)
@@ -424,6 +469,26 @@ func Run(r *ev.Run) {
 					break
 				}
 				r.Count("context_comparisons", 1)
+			}
+			if k%4 == 1 {
+				variant := (i / 4) % 8
+				var line []byte
+				var problem string
+				var built bool
+				if p := ev.Guard(func() { line, problem, built = encodeViaConfig(c, variant) }); p != "" {
+					r.Violate(ev.Violation{Case: id, Class: "console-panic", Msg: "console logger built by zap.Config panicked: " + p, Witness: c.Describe()})
+				} else if problem != "" {
+					r.Violate(ev.Violation{Case: id, Class: "console-error", Msg: "(zap.Config) " + problem, Witness: c.Describe()})
+				} else if built {
+					r.Count("lines_through_a_core_built_by_zap_Config", 1)
+					r.SetAdd("config_variants(DisableCaller|DisableStacktrace<<1|Development<<2)", fmt.Sprint(variant))
+					if class, msg := judge(c, line, decodable); class != "" {
+						w := c.Describe()
+						w["line"] = string(line)
+						w["config"] = fmt.Sprintf("DisableCaller=%v DisableStacktrace=%v Development=%v", variant&1 == 1, variant&2 == 2, variant&4 == 4)
+						r.Violate(ev.Violation{Case: id, Class: class, Msg: fmt.Sprintf("(core of a logger built by zap.Config, DisableCaller=%v DisableStacktrace=%v) %s; line=%q", variant&1 == 1, variant&2 == 2, msg, clip(string(line))), Witness: w})
+					}
+				}
 			}
 		}
 	}
